@@ -30,15 +30,23 @@ def apply (j : Json) : Except String Json := do
   let vals ← (outIdx c rout).mapM (applyAt c a)
   pure (jQs vals)
 
-/-- schedule model: {"n": cells, "perm": [..permutation of 0..n-1..], "vals": [..]} -> both executions -/
-def sched (j : Json) : Except String Json := do
+/-- schedule model on the write list logged from the real kernel: {"size": n, "cells": [flat output index of every logged
+write, in the order of the real (permuted) run], "vals": [the values written], "order": [indices into `cells`: another
+order of the same iterations]} -> the two sides of `ParLoop.kernel_schedule_independent`:
+`runWrites out (kernelWrites cells f)` and `runWrites out (kernelWrites cells' f)`, `f` = the value the kernel computed for
+a cell, `out` = the unwritten array (null = never written) -/
+def writes (j : Json) : Except String Json := do
+  let n ← fldN j "size"
+  let cells ← fldNs j "cells"
   let vals ← fldQs j "vals"
-  let perm ← fldNs j "perm"
-  let ws : List (Nat × Rat) := PdeVerif.ParLoop.kernelWrites (List.range vals.length) (fun c => vals.getD c 0)
-  let ws' := perm.map (fun p => (p, vals.getD p 0))
-  let o1 := PdeVerif.ParLoop.runWrites (fun _ => (0:Rat)) ws
-  let o2 := PdeVerif.ParLoop.runWrites (fun _ => (0:Rat)) ws'
-  pure (Json.arr #[jQs ((List.range vals.length).map o1), jQs ((List.range vals.length).map o2)])
+  let order ← fldNs j "order"
+  let f : Nat → Option Rat := fun c => (cells.zip vals).lookup c
+  let cells' := order.map (fun k => cells.getD k 0)
+  let o1 := PdeVerif.ParLoop.runWrites (fun _ => (none : Option Rat)) (PdeVerif.ParLoop.kernelWrites cells f)
+  let o2 := PdeVerif.ParLoop.runWrites (fun _ => (none : Option Rat)) (PdeVerif.ParLoop.kernelWrites cells' f)
+  let enc (o : Nat → Option Rat) : Json :=
+    Json.arr ((List.range n).map (fun c => match o c with | some v => jQ v | none => Json.null)).toArray
+  pure (Json.arr #[enc o1, enc o2])
 
-def handlers : List (String × Handler) := [("c03.apply", apply), ("c03.sched", sched)]
+def handlers : List (String × Handler) := [("c03.apply", apply), ("c03.writes", writes)]
 end PdeVerif.Drv.C03
